@@ -13,7 +13,10 @@ import (
 // C23: laid-out geometry of generated sequence diagrams (1–8 actors, spans, notes, groups, self messages, 0–30
 // messages, several per line; as the whole board or nested in a container / grid cell) for the Lean Spec (actor
 // order and baseline, message order, horizontality, attachment) and for the correspondence with Model/Seq.lean.
-func main() { hl.Main("C23", run) }
+func main() {
+	lay.MaybeChild()
+	hl.Main("C23", run)
+}
 
 // tieHeavy: many messages, several per line, no groups — the input on which an unstable sort by line number could
 // reorder (pdqsort leaves insertion sort above 12 elements)
@@ -45,40 +48,55 @@ func run(c *hl.Ctx) error {
 	}
 	r := c.Rand()
 	g := &lay.Gen{R: r}
+	// (1) the sequence diagram is the whole board: no dagre/ELK run is involved (the engine only names the core
+	// layout that is never called), so these are cheap and run without a time budget
+	var rootJobs []lay.Job
+	for i, n := 0, lay.DevN(c.Pick(700, 40000)); i < n; i++ {
+		var src, tag string
+		if i%4 == 0 {
+			src, tag = tieHeavy(r), "tie-heavy:board"
+		} else {
+			sub := &lay.Gen{R: r}
+			src, tag = sub.RootSequence(), "seq:board"
+		}
+		rootJobs = append(rootJobs, lay.Job{Src: src, Engine: []string{"dagre", "elk"}[r.Intn(2)], Tag: tag})
+	}
+	// (2) sequence diagrams nested in containers / grid cells / nears, and special diagrams nested in actors: these
+	// go through LayoutNested with real core layouts, under the wall-time budget
 	var jobs []lay.Job
-	nProg := lay.DevN(c.Pick(360, 8000))
+	nProg := lay.DevN(c.Pick(300, 6000))
 	for i := 0; i < nProg; i++ {
 		var src, tag string
-		switch i % 6 {
-		case 0:
-			src, tag = tieHeavy(r), "tie-heavy"
-		case 1:
+		if i%3 == 1 {
 			src, tag = g.Program("nested"), "nested"
-		default:
+		} else {
 			src, tag = g.Program("seq"), "seq"
 		}
-		// the sequence layout is engine independent when the sequence diagram is the whole board; alternate engines
-		// there and run both when it is nested
 		if strings.HasPrefix(src, "shape: sequence_diagram") {
-			e := []string{"dagre", "elk"}[i%2]
-			jobs = append(jobs, lay.Job{Src: src, Engine: e, Tag: tag + ":root"})
-		} else {
-			for _, e := range []string{"dagre", "elk"} {
-				jobs = append(jobs, lay.Job{Src: src, Engine: e, Tag: tag})
+			jobs = append(jobs, lay.Job{Src: src, Engine: []string{"dagre", "elk"}[i%2], Tag: tag + ":board"})
+			continue
+		}
+		for _, e := range lay.Engines(i/3, 2) {
+			jobs = append(jobs, lay.Job{Src: src, Engine: e, Tag: tag})
+		}
+	}
+	emit := func(jobs []lay.Job, res []*lay.Result) {
+		for i, rr := range res {
+			if rr == nil {
+				c.Count("budget:not-run")
+				continue
+			}
+			for _, ft := range lay.Features(rr) {
+				c.Count(rr.Engine + ":" + ft)
+			}
+			c.Emit(lay.GeoCase(rr))
+			c.Count("seq:" + jobs[i].Tag)
+			if rr.Compile != "ok" {
+				c.Count("seq:not-compilable")
 			}
 		}
 	}
-	res := lay.RunAll(jobs, runtime.NumCPU(), lay.QuickBudget(c.Quick()), 32)
-	for i, rr := range res {
-		if rr == nil {
-			c.Count("budget:not-run")
-			continue
-		}
-		c.Emit(lay.GeoCase(rr))
-		c.Count("seq:" + jobs[i].Tag)
-		if rr.Compile != "ok" {
-			c.Count("seq:not-compilable")
-		}
-	}
+	emit(rootJobs, lay.RunAll(rootJobs, runtime.NumCPU(), 0, 0))
+	emit(jobs, lay.RunAll(jobs, runtime.NumCPU(), lay.QuickBudget(c.Quick()), 32))
 	return nil
 }
